@@ -40,6 +40,7 @@ from unified_planning.model.fnode import FNode
 from unified_planning.model.metrics import PlanQualityMetric, MinimizeActionCosts
 from unified_planning.model.state import UPState
 from unified_planning.model.timing import TimeInterval, TimepointKind, Timing
+from unified_planning.model.fluent import get_all_fluent_exp
 from unified_planning.model import (
     AbstractProblem,
     Problem,
@@ -606,10 +607,24 @@ class TimeTriggeredPlanValidator(engines.engine.Engine, mixins.PlanValidatorMixi
                 )
                 next_id += 1
 
-        for invariant in problem.state_invariants:
+        # State invariants (and bounded numeric types, which are checked as invariants like the
+        # sequential simulator does) must hold in every state, including the final one:
+        # the interval has no upper end.
+        invariants = list(problem.state_invariants)
+        for f in problem.fluents:
+            f_type = f.type
+            if f_type.is_int_type() or f_type.is_real_type():
+                lower_bound, upper_bound = f_type.lower_bound, f_type.upper_bound  # type: ignore
+                if lower_bound is not None or upper_bound is not None:
+                    for f_e in get_all_fluent_exp(problem, f):
+                        if lower_bound is not None:
+                            invariants.append(em.LE(lower_bound, f_e))
+                        if upper_bound is not None:
+                            invariants.append(em.LE(f_e, upper_bound))
+        for invariant in invariants:
             durative_conditions.append(
                 (
-                    (Fraction(0), plan_duration, False),
+                    (Fraction(0), None, False),
                     next_id,
                     invariant,
                     None,
